@@ -346,7 +346,7 @@ class FileInfo(os.PathLike):
         times = []
         for i in range(2):
             if json_dict["times"][i] is None:
-                times.append([None])
+                times.append(None)
             else:
                 times.append(
                     datetime.strptime(
